@@ -145,6 +145,10 @@ def run_case(case):
 
     def before(r):
         state["snap"] = irsan.Snapshot(r.bu.module)
+        # (under PassManager this runs inside the manager's return-cache
+        # context, where ir.cfg already is the cache: the caller's object is
+        # the one recorded before the run)
+        state["snap"].cfg = r.orig_cfg
         state["edges"] = None
 
     def listener(event, **kw):
